@@ -229,7 +229,16 @@ class Translator:
         if isinstance(st, ast.AugAssign):
             cur = self.eval(_as_load(st.target), env, mod, depth)
             v = self.eval(st.value, env, mod, depth)
-            self.assign(st.target, self.binop(st.op, cur, v), env, mod, depth)
+            res = self.binop(st.op, cur, v)
+            if self.hooks.get("numpy_inplace") and isinstance(cur, np.ndarray) and isinstance(res, np.ndarray) and res.shape == cur.shape and cur.dtype == object:
+                cur[...] = res  # numpy semantics: `a += b` changes the array in place (every alias / view sees it)
+                self.assign(st.target, cur, env, mod, depth)
+                return None
+            if self.hooks.get("numpy_inplace") and isinstance(cur, list) and isinstance(st.op, ast.Add) and isinstance(v, (list, tuple)) and not isinstance(cur, (PySet,)):
+                cur.extend(list(v))  # list += ... extends in place
+                self.assign(st.target, cur, env, mod, depth)
+                return None
+            self.assign(st.target, res, env, mod, depth)
             return None
         if isinstance(st, ast.If):
             c = self.truth(self.eval(st.test, env, mod, depth), st.test)
@@ -276,6 +285,30 @@ class Translator:
         if isinstance(st, (ast.FunctionDef,)):
             env[st.name] = Closure(st, env, self, mod)
             return None
+        if isinstance(st, ast.Try):
+            r = None
+            try:
+                try:
+                    r = self.exec_body(st.body, env, mod, depth)
+                except Raised as e:
+                    for h in st.handlers:
+                        names = [] if h.type is None else [ast.unparse(x).split(".")[-1] for x in (h.type.elts if isinstance(h.type, ast.Tuple) else [h.type])]
+                        if h.type is None or any(nm in ("Exception", "BaseException") or nm in str(e) for nm in names):
+                            if h.name:
+                                env[h.name] = str(e)
+                            r = self.exec_body(h.body, env, mod, depth)
+                            break
+                    else:
+                        raise
+                else:
+                    if r is None and st.orelse:
+                        r = self.exec_body(st.orelse, env, mod, depth)
+            finally:
+                if st.finalbody:
+                    rf = self.exec_body(st.finalbody, env, mod, depth)
+                    if rf is not None:
+                        r = rf
+            return r
         if isinstance(st, ast.Delete):
             for t in st.targets:
                 if isinstance(t, ast.Name) and t.id in env:
@@ -551,6 +584,9 @@ class Translator:
     def global_name(self, name, mod, env, depth):
         if name in ("True", "False", "None"):
             return {"True": True, "False": False, "None": None}[name]
+        g_ = self.hooks.get("globals")
+        if g_ and name in g_:
+            return g_[name]  # a module-level object supplied by the checker (e.g. a table loaded from a data file)
         if name in mod.imports:
             tmod, attr = mod.imports[name]
             if tmod in ("math", "numpy") and attr in ("pi", "e", "inf"):
@@ -943,6 +979,10 @@ class Translator:
                 return str(a0)
             if isinstance(a0, SelfObj) and isinstance(a0.attrs.get("__str__"), str):
                 return a0.attrs["__str__"]
+            if isinstance(a0, SelfObj) and a0.cls is not None:
+                m_ = a0.cls.lookup("__str__") or a0.cls.lookup("__repr__")
+                if m_ is not None:
+                    return self.call_fn(m_, [], {}, self_obj=a0, depth=1)
             raise Unmodelled("str() of a symbolic value")
         if name == "print":
             return None
